@@ -5,7 +5,7 @@ ID = 'C11'
 PKG = '.'
 HARNESS_FILES = ['pkg/frame/zz_verif_common.go', 'pkg/frame/zz_verif_dialect.go', 'pkg/frame/zz_verif_c02.go',
                  'pkg/frame/zz_verif_c05.go', 'pkg/frame/zz_verif_c06.go', 'pkg/frame/zz_verif_export.go',
-                 'pkg/frame/zz_verif_msgs.go', 'zz_verif_node.go', 'zz_verif_c11.go']
+                 'pkg/frame/zz_verif_msgs.go', 'zz_verif_node.go', 'zz_verif_c11.go', 'zz_verif_c10.go', 'zz_verif_life.go']
 KERNEL_PKGS = ['.']
 ROOTS = [r'v3\.verifHarness_C11', r'v3\.verifHarness_C13']
 ALLOW = 'bufio,io,encoding/binary,errors,bytes'
@@ -24,6 +24,9 @@ def tasks(tier):
                 if tier == 'quick' and kind != 0 and target in (1, 2) and member not in (7, 5):
                     continue
                 ts.append(Task('verifHarness_C11_dispatch', [kind, member, target]))
+    for kind in (0, 1):
+        for closing in (0, 1, 2):
+            ts.append(Task('verifHarness_C11_dispatch_closing', [kind, closing]))
     for version in (1, 2):
         for a in range(3):
             ts.append(Task('verifHarness_C11_drain', [version, a]))
@@ -31,15 +34,18 @@ def tasks(tier):
         ts.append(Task('verifHarness_C11_caller', [api]))
     for api in range(7):
         ts.append(Task('verifHarness_C11_router_nodialect', [api]))
+    ts.append(Task('verifHarness_C11_node_forward_frames', []))
     return ts
 
 
 def required_reach(tier):
-    return ['C11/K1', 'C11/K3', 'C11/K4', 'C11/K4r']
+    return ['C11/K1', 'C11/K3', 'C11/K4', 'C11/K4r', 'C11/K1c', 'C11/NF']
 
 
 def bounds(tier):
     return {'K4_router_without_dialect': 'node with Dialect = nil: raw v1 / v2 frames (id, payload, checksum symbolic) through WriteFrameAll/To/Except are accepted and handed over once, unchanged; a decoded message is refused',
+            'node_level_forwarding': 'ONE SCHEDULE: a real node over two links, one of them momentarily slow: three different frames forwarded to all links arrive on each link whole, in order, once',
+            'K1c_closing_member': 'three member channels, one of them cancelled: All / Except(nil) still serve the other two exactly once, under every rotation of the map order',
             'K1_dispatch': '3 channels with every membership subset + one foreign channel, every target incl. the foreign one and nil; each queue with an arbitrary '
                            'fill level 0..64 (symbolic); map iteration order: every rotation',
             'K3_drain': 'queue of 3 items (message / frame mixes), v1 and v2 link',
